@@ -282,6 +282,7 @@ class FakeNet:
         owner = _find_owner()
         with self.lock:
             s = FakeSocket(self, family, len(self.socks), owner)
+            s.sock_type, s.sock_proto = type, proto
             self.socks.append(s)
             if owner is not None:
                 self._owner_refs.append(owner)
@@ -395,6 +396,15 @@ class FakeSocket:
         key = tuple(addr) if isinstance(addr, (tuple, list)) else addr
         srv = net.endpoints.get(key)
         now = net.clock.now() if net.clock else None
+        # like the kernel: the address must be of the socket's family, and memcached speaks over stream sockets
+        fam = getattr(self, "family", None)
+        shape_ok = ((fam == net.AF_UNIX and isinstance(addr, (str, bytes)))
+                    or (fam == net.AF_INET and isinstance(addr, (tuple, list)) and len(addr) == 2)
+                    or (fam == net.AF_INET6 and isinstance(addr, (tuple, list)) and len(addr) in (2, 4)))
+        if not k and (not shape_ok or getattr(self, "sock_type", net.SOCK_STREAM) != net.SOCK_STREAM):
+            net.contacts.append((now, key, False, net.ctx.call))
+            raise OSError(errno.EAFNOSUPPORT, "Address family not supported by protocol (socket(%r, %r) connected to %r)"
+                          % (fam, getattr(self, "sock_type", None), addr))
         if k:
             net.contacts.append((now, key, False, net.ctx.call))
             raise make_exc(k)
